@@ -83,6 +83,8 @@ def job_format(J, qn, cls, lens):
         if o[0] != "ret":
             return (o[1],)
         b = o[1]
+        w["reser"] = outcome(b.serialize)
+        w["restart"] = outcome(b.start)
         msg = SymBytes.fresh("side", 1) + SymBytes.fresh_chunk("body", W)
         w["oa"], w["ob"] = outcome(a.finish, msg), outcome(b.finish, msg)
         return "instance", okind(w["oa"]), okind(w["ob"])
@@ -104,6 +106,10 @@ def job_format(J, qn, cls, lens):
                 cex=cex, oracle="format")
         if r.value[0] == "instance":
             b = w["o"][1]
+            J.claim(r, "the resumed session is a started session: it serializes again to the same released-format state (%s)" % okind(w["reser"]),
+                    w["reser"][0] == "ret" and _dict_equal(w["reser"][1].obj, ref) if w["reser"][0] == "ret" else False, cex=cex, oracle="format")
+            J.claim(r, "the resumed session refuses start() with OnlyCallStartOnce (%s)" % okind(w["restart"]),
+                    w["restart"][0] == "exc" and w["restart"][1] == "OnlyCallStartOnce", cex=cex, oracle="format")
             J.claim(r, "resumed session sends the described outbound message",
                     SymBytes.of(b.outbound_message).eq_term(w["own"][1:]), cex=cex, oracle="format")
             ka, kb = r.value[1], r.value[2]
@@ -183,6 +189,19 @@ def oracle_format(cls, pw, idA, idB, x, ground_only=False):
                         return (True, "released-format state in the rendering %r... refused on %s class %s: %r" % (txt[:12], nm, c, e))
                 if b.outbound_message != own[1:]:
                     return (True, "resumed session sends another message on %s class %s" % (nm, c))
+                try:
+                    again = json.loads(b.serialize().decode("ascii"))
+                except Exception as e:
+                    return (True, "a session resumed from released-format state cannot be persisted again on %s class %s: %r" % (nm, c, e))
+                if again != ref:
+                    return (True, "a resumed session serializes to different state on %s class %s" % (nm, c))
+                try:
+                    b.start()
+                    return (True, "a resumed session accepts start() on %s class %s" % (nm, c))
+                except sp.OnlyCallStartOnce:
+                    pass
+                except Exception as e:
+                    return (True, "a resumed session's start() raises %s instead of OnlyCallStartOnce on %s class %s" % (type(e).__name__, nm, c))
                 peer = mk(PEER[c], (xx + 1) % q).start()
                 oa, ob = C.finish_outcome(a, peer), C.finish_outcome(b, peer)
                 if oa != ob:
